@@ -1,0 +1,32 @@
+//go:build verif
+
+package nebula
+
+import "net/netip"
+
+// SetRemoteByIndex gives the hostinfo with the given local index a direct underlay remote (the state
+// Control.SetRemoteForTunnel / a direct packet leaves behind) without touching the learned address list.
+func (n *VerifNode) SetRemoteByIndex(localIndex uint32, addr netip.AddrPort) bool {
+	hi := n.F.hostMap.QueryIndex(localIndex)
+	if hi == nil {
+		return false
+	}
+	hi.remote.Store(&addr)
+	return true
+}
+
+// SetRemoteAllowListDeny installs a lighthouse.remote_allow_list that denies denyCIDR and allows the
+// rest; "" restores the empty (allow all) list.
+func (n *VerifNode) SetRemoteAllowListDeny(denyCIDR string) error {
+	lh := n.F.lightHouse
+	if denyCIDR == "" {
+		lh.remoteAllowList.Store(&RemoteAllowList{})
+		return nil
+	}
+	al, err := newAllowList("lighthouse.remote_allow_list", map[string]any{denyCIDR: false, "0.0.0.0/0": true}, nil)
+	if err != nil {
+		return err
+	}
+	lh.remoteAllowList.Store(&RemoteAllowList{AllowList: al})
+	return nil
+}
